@@ -153,6 +153,9 @@ def random_lens(rnd, nsurf=None, kinds=("standard",), mirrors=False, tilts=False
         if apertures and rnd.random() < 0.4:
             rmax = epd * rnd.uniform(0.3, 1.2)
             kw["aperture"] = RadialAperture(r_max=rmax, r_min=rmax * rnd.uniform(0.0, 0.4) if rnd.random() < 0.4 else 0.0)
+            if int(rmax * 1e6) % 6 == 0:
+                # an obscuration only (the secondary-mirror shadow of the bundled telescopes): no outer edge
+                kw["aperture"] = RadialAperture(r_max=math.inf, r_min=rmax * 0.3)
         if coatings and rnd.random() < 0.4:
             T = rnd.choice([0.0, 1.0, rnd.uniform(0, 1)])
             kw["coating"] = SimpleCoating(transmittance=T, reflectance=rnd.uniform(0, 1 - T))
